@@ -46,10 +46,9 @@ def cmp(x,y):
     if x is y:
         return 0
     x,y = as_primitive([x,y])
-    x = float(x) if isinstance(x, int) and not isinstance(x, bool) else x
-    y = float(y) if isinstance(y, int) and not isinstance(y, bool) else y
-    tx = str(type(x))
-    ty = str(type(y))
+    # ints rank with the floats but keep their exact value: float(2**53+1) == float(2**53) would make distinct keys equal
+    tx = str(float if isinstance(x, int) and not isinstance(x, bool) else type(x))
+    ty = str(float if isinstance(y, int) and not isinstance(y, bool) else type(y))
     if tx<ty:
         return -1
     elif ty<tx:
